@@ -91,6 +91,7 @@ class Sched:
         self.mainproc = None
         self.ledger = collections.Counter()
         self.thread_excs = []
+        self.inst_cfg = {}
         self.last_progress_now = self.now
         self.max_idle_virtual = max_idle_virtual
         self.last_progress_step = 0
@@ -398,6 +399,11 @@ class Thread:
         st.real.start()
         st.started = True
         st.start_step = S.steps
+        pp = getattr(self, 'pool_params', None)
+        if pp is not None:
+            # the extras a worker instance passes to user functions are fixed when it starts
+            S.inst_cfg[len(S.threads) - 1] = {'pass_worker_id': bool(pp.pass_worker_id), 'shared': pp.shared_objects is not None,
+                                              'use_worker_state': bool(pp.use_worker_state)}
         self.ident = id(st)
         S.rec('start', st.role)
         S.yield_point('start')
